@@ -172,6 +172,42 @@ def rule_fold(P):
     return r
 
 
+def rule_alias(P):
+    r = Rule("C30-alias", "K4/K8", "the host reported for an alias is the evhttp that owns the matching alias", floor=1)
+    f = P.fn("evhttp_find_alias")
+    outp = [n for n, t in f.params if "**" in t.replace(" ", "")]
+    if not outp:
+        r.brk("evhttp_find_alias: out parameter not found")
+        return r
+    outp = outp[0]
+    stores = [el for el, lhs, op, rhs in f.stores() if is_e(strip(lhs), "deref") and is_e(strip(strip(lhs)[1]), "var") and strip(strip(lhs)[1])[1] == outp]
+    rec = [el for el in f.calls(f.name)]
+    for st in stores:
+        X = strip(st.e[3])
+        gs = [negate_truth(c, t) for c, t, _ in f.guards_at(st.bid)]
+        # guarded by a successful comparison of an alias string ...
+        cmp_ok = any((not t) and is_e(strip(c), "call") and callee_name(strip(c)) in ("evutil_ascii_strcasecmp", "strcasecmp") and any(is_e(q, "fld") and q[2] == "evhttp_server_alias.alias" for q in walk(c)) for c, t in gs)
+        # ... whose list is X's own alias list: the alias cursor is initialised from X->aliases
+        cursors = set(root_var(q)[1] for c, t in gs for q in walk(c) if is_e(q, "fld") and q[2] == "evhttp_server_alias.alias" and root_var(q) is not None)
+        own = False
+        for cv in cursors:
+            for d, rhs in f.var_stores(cv):
+                if any(is_e(q, "fld") and q[2] == "evhttp.aliases" and eq(strip(q[1]), X) for q in walk(rhs)):
+                    own = True
+        r.inst(("store", st.n), {"site": st.where(), "reports": show(X), "guarded_by_alias_match": cmp_ok, "alias_list_of_reported_host": own})
+        if not (cmp_ok and own):
+            r.bad("K4:evhttp_find_alias:reports-non-owner", st.where(), f.name,
+                  "*%s = %s is not guarded by a successful comparison with an alias from %s's own alias list: for aliases on nested virtual hosts an ancestor would be reported instead of the owner" % (outp, show(X), show(X)))
+    for c in rec:
+        ok = eq(strip(c.e[2][1]), ["var", outp, "param"])
+        r.inst(("rec", c.n), {"site": c.where(), "passes_out_parameter_down": ok})
+        if not ok:
+            r.bad("K8:evhttp_find_alias:recursion-drops-result", c.where(), f.name, "the recursive search does not pass the caller's out parameter down (the innermost owner cannot be reported)")
+    if not stores:
+        r.brk("no store through the out parameter")
+    return r
+
+
 def run(ctx, config):
     P = ctx.prog(UNITS, config)
-    return [rule_order(P), rule_vhost(P), rule_fold(P)]
+    return [rule_order(P), rule_vhost(P), rule_fold(P), rule_alias(P)]
